@@ -46,6 +46,7 @@ from ..lik_c06 import (
 LEVEL = "exploration"
 REL = 1e-9
 ABS = 1e-12
+PARTS = {}  # (sample size, batch size) -> sizes of the batches, from TLC
 SLOW_IMPLS = ("cached_int", "cached_amp", "cfit_cached")
 ACTIONS = ["Setup", "Blend", "PreBatch", "DataBatch", "DataDone", "MCBatch", "MCDone", "Combine", "ReBlend", "ValueEval", "Finish"]
 
@@ -266,6 +267,8 @@ def run(ctx):
                 raise tlc.MachineryError("Likelihood.tla (%s): scenario table not emitted (%s cores)" % (label, r.out and r.out.get("ncores")))
             emitted += r.out["cores"]
             tables = r.out["tables"]
+            for n, b, sizes in r.out["parts"]:
+                PARTS[(n, b)] = list(sizes)
     # the two defects the specification transcribes: TLC must find them on the affected scenarios
     predicted = []
     for name, active, kinds, inv in (("cfit_ext ragged batches", variants["ragged"] == "pack", ("cfit_ext",), "NoRaise"),
@@ -290,14 +293,16 @@ def run(ctx):
     ctx.cov["traces_validated_against_impl"] = 0
 
     stats = replay_all(ctx, fac, emitted, rng, quick, variants)
-    ctx.cov["traces_validated_against_impl"] = stats["scenarios"]
+    ctx.cov["traces_validated_against_impl"] = stats.get("batch_traces", 0)
     ctx.cov["rule"] = (
         "TLC enumerates every scenario (likelihood model x data/background/MC sizes x weight patterns incl. negative x background-weight mode x "
         "MC-weight mode x constraints x grouping x batch size 1..N+1 x value/gradient path) as one behaviour of the step machine and checks "
         "algorithm = definition, partition into batches, alpha idempotence, rescaling invariance exactly; the emitted scenario table is sampled "
         "stratified by (kind, features, sizes) and each chosen scenario is realised as a real FCN through ConfigLoader.get_fcn on phase-space events; "
         "fcn(params), nll_grad(params)[0] for every batch size 1..N+1 at two parameter points, rescaling of all total couplings, CombineFCN = sum of parts "
-        "are compared with the numpy transliteration of Def (itself held to TLC's exact values). evaluations = real NLL evaluations compared; "
+        "are compared with the numpy transliteration of Def (itself held to TLC's exact values); for the models that batch through _batch_sum the sizes of "
+        "the batches actually processed by one nll_grad call are compared with TLC's partition table (traces_validated_against_impl). "
+        "evaluations = real NLL evaluations compared; "
         "distinct non-trivial = distinct (implementation kind, scenario, batch) with background, negative or MC weights, constraints, several data sets or more than one batch"
     )
     ctx.assume("numpy.Inf shim (harness/prelude.py) so that tf_pwa.config_loader imports")
@@ -318,7 +323,7 @@ def replay_all(ctx, fac, emitted, rng, quick, variants):
         by_stratum.setdefault(key, []).append(c)
     strata = sorted(by_stratum)
     per = 1 if quick else 6
-    budget = 26 if quick else 170
+    budget = 22 if quick else 140
 
     def size(c):
         return sum(len(g["dw"]) + g["nb"] + len(g["mv"]) for g in c["core"]["groups"])
@@ -445,6 +450,9 @@ def replay_core(ctx, fac, core, impl, rng, maxn, mult, with_eff, variants, stats
             if not sample_done and len(got) == 2 and b == batches[-1]:
                 ctx.sample({"impl_kind": impl, "scenario": core, "batch": b, "events_per_abstract_event": mult, "fcn": got["call"], "nll_grad[0]": got["nll_grad"], "definition": exp})
                 sample_done = True
+        # ---- the batches the code processes are the partition of the specification (one ragged batch size)
+        if pi == 0 and mult == 1 and impl in ("default", "extended", "cfit", "cfit_ext") and real.G == 1:
+            record_batches(ctx, real, core, impl, p, batches, fcns, stats)
         # ---- rescaling of all `total` couplings (largest batch size only)
         fcn = fcns.get(batches[-1])
         if fcn is not None:
@@ -460,6 +468,7 @@ def replay_core(ctx, fac, core, impl, rng, maxn, mult, with_eff, variants, stats
             if v0 is not None and math.isfinite(v0):
                 stats["scaled"] += 1
                 stats["evaluations"] += 2
+                ctx.count(2)
                 if spec_kind in ("extended", "cfit_ext"):
                     stats["ext_scaled_changed"] += int(not close(v0, v1, scale))
                 else:
@@ -481,8 +490,43 @@ def replay_core(ctx, fac, core, impl, rng, maxn, mult, with_eff, variants, stats
                 cterm = def_constr(constr)
                 stats["sum_of_parts"] += 1
                 stats["evaluations"] += 1 + real.G
+                ctx.count(1 + real.G)
                 if not close(tot, sum(parts) - (real.G - 1) * cterm, scale):
                     ctx.violation(known_key(impl, "call", "sum_of_parts"), {"combined": tot, "parts": parts, "constraint_term": cterm, "core": core, "batch": b})
+
+
+def record_batches(ctx, real, core, impl, p, batches, fcns, stats):
+    """wrap tf_pwa.model.model._batch_sum (from the harness; nothing is changed in /repo) for one nll_grad call and
+    compare the sizes of the processed batches, in order, with the partition TLC computed (invariant Partition)"""
+    import tf_pwa.model.model as mm
+
+    g = core["groups"][0]
+    n, nm = len(g["dw"]) + g["nb"], len(g["mv"])
+    ragged = [b for b in batches if (n > b and n % b) or (nm > b and nm % b)]
+    b = ragged[0] if ragged else batches[0]
+    fcn = fcns.get(b)
+    if fcn is None or (n, b) not in PARTS or (nm, b) not in PARTS:
+        return
+    seen = []
+    orig = mm._batch_sum
+
+    def spy(f, data_i, weight_i, *a, **kw):
+        seen.append(int(np.size(np.asarray(weight_i))))
+        return orig(f, data_i, weight_i, *a, **kw)
+
+    mm._batch_sum = spy
+    try:
+        quiet(fcn.nll_grad, p)
+    except Exception:  # noqa: BLE001  (reported by the main loop)
+        return
+    finally:
+        mm._batch_sum = orig
+    d, m = PARTS[(n, b)], PARTS[(nm, b)]
+    expect = (m + m + d) if impl in ("cfit", "cfit_ext") else (d + m)  # cfit: signal integral, background integral, data
+    stats["batch_traces"] = stats.get("batch_traces", 0) + 1
+    ctx.count(1, distinct_key=("batches", impl, n, nm, b))
+    if seen != expect:
+        ctx.violation(known_key(impl, "nll_grad", "batches_partition"), {"processed_batch_sizes": seen, "specification": expect, "n": n, "n_mc": nm, "batch": b, "core": core})
 
 
 def replay(ctx, path):
